@@ -83,6 +83,8 @@ func config(name string) pmc.Cfg {
 		c.C, c.Byz, c.CommitFails = kit.WeightedCommittee(7, 1, 1, 1), []int{1}, true
 	case "K1x": // 4 equal, Byzantine leader of view 1, every commit callback fails
 		c.C, c.Byz, c.CommitFails = kit.EqualCommittee(4), []int{1}, true
+	case "K9": // 4 equal, Byzantine = leader of view 2 (correct leaders in views 0 and 1: locks exist when the Byzantine leader assembles its NEW_VIEW)
+		c.C, c.Byz = kit.EqualCommittee(4), []int{2}
 	case "K7": // 7 equal, two Byzantine members (leaders of views 0 and 1)
 		c.C, c.Byz = kit.EqualCommittee(7), []int{0, 1}
 	default:
@@ -126,6 +128,8 @@ var menus = map[string]string{
 	"MO":   "PC OUT NVO", // outsider (valid key, not a member): its own PREPARE/COMMIT/VIEW_CHANGE, and NEW_VIEWs of a Byzantine leader padded with its vote
 	"MCS":  "PC CS", // + own COMMIT carrying another member's random-seed share
 	"MX":   "PC PX", // + PREPARE / COMMIT for a hash nobody proposed
+	"MP0":  "NV NVP",
+	"MP":   "PC NV NVP", // Byzantine leader: a valid NEW_VIEW to some, then one in which a correct member's PREPARE/COMMIT stands in for its vote
 	"MT":   "PC NVT", // NEW_VIEW of a Byzantine leader whose embedded proposal declares another message type
 	"MB":   "PC NVB",           // NEW_VIEWs of a Byzantine leader, genuine in every signed part, with and without a substituted block body
 	"MZE":  "PC PP0 NV NVE VC", // + NEW_VIEW / vote locked on an empty-hash proof forged from proof-less VIEW_CHANGE signatures
@@ -251,12 +255,16 @@ func plan(prop, tier string) []run {
 		add("K3b@v2", "M3", 0, mul*10*time.Second)  // every vote variant of two Byzantine members for the correct leader of view 2: exhaustive
 		add("K10^2@v1", "M0", 0, mul*5*time.Second)   // weights 7,1,1,1: the first leader is a quorum by itself and decides inside its own proposal step: exhaustive
 		add("K10b^2@v1", "M0", 0, mul*5*time.Second)  // the same with the light members silent
+		add("K10x@v2", "M1", 0, mul*15*time.Second)   // the same committee with commit callbacks that fail: the heavy member is prepared by its proposal alone, stays in the height and takes part in view changes
 		add("K1@v0a", "MCS", 0, mul*10*time.Second)  // Byzantine COMMITs that carry a correct member's random-seed share: exhaustive
 		add("K1@v1a", "MNC", 0, mul*10*time.Second) // the adversary's own messages signed over non-canonical header encodings: exhaustive
 		add("K3b@v1", "MNC", 0, mul*10*time.Second) // the same with two Byzantine members, weighted: exhaustive
 		add("K2@v1a", "MNC", 0, mul*25*time.Second) // the same from the proposer of view 0 (PREPREPARE, votes to the correct leader of view 1): exhaustive
 		if prop == "C09" || prop == "C11" || prop == "C07" || !q {
 			add("K1@v2a", "MT", 0, mul*40*time.Second) // NEW_VIEW whose embedded proposal declares another message type, then a further view change: exhaustive (~1.5e6 states)
+		}
+		if prop == "C07" || prop == "C09" || prop == "C01" || !q {
+			add("K1@v1a", "MP0", 0, mul*60*time.Second) // Byzantine leader of view 1: a valid NEW_VIEW to one member, then a NEW_VIEW whose quorum counts that member's PREPARE/COMMIT as its vote: exhaustive (~1.5e6 states)
 		}
 		add("K1@v1a", "MB", 0, mul*25*time.Second)  // Byzantine leader of view 1 substitutes the (unsigned) block body of its NEW_VIEW: exhaustive
 		add("K3b@v4a", "ME", 0, mul*20*time.Second) // two Byzantine leaders, views up to 4: NEW_VIEW / vote locked on an empty-hash proof forged from VIEW_CHANGE signatures: exhaustive
@@ -292,6 +300,7 @@ func plan(prop, tier string) []run {
 	for _, x := range [][2]string{{"K3b@v3a", "M3"}, {"K3b@v4a", "M3"}, {"K3b@v3a", "M4"}, {"K3b@v4a", "MB"}, {"K3b@v3a", "M2"}, {"K1@v5a", "ME"}} {
 		add(x[0], x[1], 0, 60*time.Second) // deeper view chains on the two-correct-member committee (depth-bounded)
 	}
+	add("K9@v2", "MP", 0, 120*time.Second) // the vote-substitution adversary with locks of two earlier views in play (depth-bounded)
 	add("K1", "M1", 2, 90*time.Second)
 	add("K2", "M2", 2, 90*time.Second)
 	add("K1@v1", "M1", -1, 90*time.Second) // L2: single deliveries only, no flush
